@@ -269,6 +269,25 @@ func (c *FnCtx) libraryModel(x *ssa.Call, obj *types.Func, common *ssa.CallCommo
 		}
 		st.heaps[key] = store(h, sBase(s), arr)
 		return true
+	case "encoding/json.Unmarshal":
+		// json.Unmarshal(data, &x): on success x is the decoded value, an uninterpreted function of the
+		// bytes (identified by their slice header); on failure x is arbitrary. (A-CODEC)
+		used()
+		e := c.fresh("jsonerr", SInt)
+		c.define(ge(e, tZero))
+		if mi, ok := common.Args[1].(*ssa.MakeInterface); ok {
+			if pt, ok := mi.X.Type().Underlying().(*types.Pointer); ok {
+				dst := c.addrOf(mi.X)
+				nv := c.freshTyped("jsonval", pt.Elem())
+				c.assumeRefs(nv, pt.Elem(), st)
+				name := "json_dec_" + shortTypeName(pt.Elem())
+				u.declareFun(name, []Sort{SSlice}, nv.Sort)
+				c.define(implies(eq(e, tZero), eq(nv, mk(nv.Sort, name, args[0].t))))
+				c.storeTo(st, dst, nv)
+			}
+		}
+		setResult(Val{kind: vTerm, t: e})
+		return true
 	case "(context.Context).Err":
 		used()
 		done := c.ctxAdvance(st)
